@@ -21,11 +21,13 @@ pub fn parse_char_list(input: &str) -> Result<String, DataError> {
         }
     }
 
-    if start_quote_count == input.len() {
+    // counts are in characters, the quotes are single byte but the body need not be
+    let char_count = input.chars().count();
+    if start_quote_count == char_count {
         return Ok(new);
     }
 
-    let real_len = input.len() - start_quote_count * 2;
+    let real_len = char_count.saturating_sub(start_quote_count * 2);
 
     let mut check_escape = false;
     let mut in_unicode = false;
